@@ -156,6 +156,15 @@ func (s *Session) setConn(conn net.Conn, brw *bufio.ReadWriter) {
 	s.brw = brw
 }
 
+// connection returns the connection and bufio.ReadWriter the session is
+// currently on; they change when the connection is upgraded to TLS.
+func (s *Session) connection() (net.Conn, *bufio.ReadWriter) {
+	s.mu.RLock()
+	defer s.mu.RUnlock()
+
+	return s.conn, s.brw
+}
+
 // Get takes key and returns the associated value from the session.
 func (s *Session) Get(key string) (interface{}, bool) {
 	s.mu.RLock()
